@@ -418,8 +418,11 @@ func isFullRangeLoopIdx(loop *loopInfo, idx ssa.Value, seq ssa.Value) bool {
 }
 
 // checkSortedIDs: PolicySet.MarshalCedar sorts the collected ids before the loop that writes.
-func checkSortedIDs(p *Prog, r *Report) {
-	const rule = "R20.4-sorted-emission"
+func checkSortedIDs(p *Prog, r *Report) { checkSortedIDsAs(p, r, "R20.4-sorted-emission") }
+
+// checkSortedIDsAs runs the documented-order rule under the given rule name (C08 claims it too: "a set of policies parses
+// back to the same policies in the documented order").
+func checkSortedIDsAs(p *Prog, r *Report, rule string) {
 	fn := p.fn(pRoot, "PolicySet.MarshalCedar")
 	if fn == nil {
 		r.Anchor(rule, "PolicySet.MarshalCedar")
